@@ -77,6 +77,7 @@ def check_case(run, case):
     if not pws:
         run.inconc('no encodable password in batch'); return
     pws += ['plain1', 'word', 'word', 'pass12', 'pass12!', 'iloveyou1234567!!', 'Sunshine20011234567']            # some ordinary structure around it
+    pws += ['bob@gmail.com', 'Alice@Mail.RU', 'bob@gmail.com1', 'www.google.com', 'http://www.site.net/x', 'x.org', 'x.org']     # e-mail provider / website host lists (PRINCE terminals E / W)
     data = b''.join(b'$HEX[' + p.encode(enc).hex().encode() + b']\n' for p in pws)
     name, path = repo.new_rules_dir('c07')
     try:
@@ -116,7 +117,9 @@ def check_case(run, case):
         if 'Ignor' in diag or 'xception' in diag or 'weird' in diag:
             run.violation('guesser loader printed a diagnostic while loading a ruleset the trainer has just written', case, observed=diag[-400:]); return
         for lab, rows in disk.rows.items():
-            if lab[0] in 'ACDOKXY':
+            if lab[0] in 'ACDOKXY' or lab in ('E', 'W'):       # E / W: e-mail providers and website hosts (PRINCE terminals)
+                if lab in ('E', 'W') and rows:
+                    run.ev('email_website_tables_compared')
                 got = flat(pcfg.grammar.get(lab, []))
                 exp = [(v, float(p)) for v, p in rows]
                 if got != exp:
